@@ -236,7 +236,7 @@ pub fn generate(prop: &str, run_seed: u64, _index: u64, tier: Tier) -> Trace {
             K_O_DEALLOC => Op::new(k, &[r.below(6), r.below(64)]),
             K_O_SHRINK => Op::new(k, &[r.below(6), r.below(64), r.below(1001)]),
             K_O_RESERVE => Op::new(k, &[r.below(6), r.below(2), r.below(10_000)]),
-            K_O_MISC => Op::new(k, &[r.below(6)]),
+            K_O_MISC => Op::new(k, &[r.below(6), r.below(17), r.below(5), r.below(40), r.below(2), r.below(250)]),
             _ => continue,
         };
         if op_fault_rate > 0 && matches!(k, K_ALLOC | K_GROW | K_SHRINK | K_PREP | K_RESERVE | K_TYPED | K_TRIPLE | K_GROWTIP) && rf.below(100) < op_fault_rate {
